@@ -521,14 +521,30 @@ def check(ck):
     ff = FA(ck, FR + "._find_function")
     may = set()
     frcls = ck.repo.cls(FR)
+    # the lookup: the call of _find_function — or, when that private helper was inlined into from_qualified_name
+    # (FA falls back on the host), the import walk itself; its failures are those raised inside the guarded region
+    host_mode = ff.fi is fq.fi
+    fcalls = fq.calls("_find_function")
+    if not fcalls and host_mode:
+        fcalls = fq.calls("import_module")
+    fcall = fq.one(fcalls, "_find_function call")
+    region = [t_ for t_ in fq.stmts(ast.Try) if any(fq.inside(fcall, b) for b in t_.body)]
+
+    def in_region(node):
+        return any(fq.inside(node, b) for t_ in region for b in t_.body)
+
     lookup_fns = [ff]
     for c in ff.calls():
         # helpers of the same class the lookup delegates to (one level)
+        if host_mode and not in_region(c):
+            continue
         if isinstance(c.func, ast.Attribute) and A.norm(c.func.value) in ("FunctionReference", "cls", "self") and c.func.attr in frcls.methods \
                 and c.func.attr not in ("_find_function", "from_qualified_name"):
             lookup_fns.append(FA(ck, frcls.methods[c.func.attr]))
     for f in lookup_fns:
         for r in f.stmts(ast.Raise):
+            if host_mode and f is ff and not in_region(r):
+                continue
             if isinstance(r.exc, ast.Call):
                 may.add(A.call_attr(r.exc))
         for c in f.calls():
@@ -562,7 +578,7 @@ def check(ck):
         return "call:import_module" in d and has_cmp
     helpers_fresh = {f.fi.name for f in lookup_fns[1:] if fresh_resolver(f)}
     for r in ff.returns():
-        if r.value is None:
+        if r.value is None or (host_mode and not in_region(r)):
             continue
         names = [n.id for n in ast.walk(r.value) if isinstance(n, ast.Name) and ff.df.is_local(n.id) and n.id not in ff.fi.params]
         bad = []
@@ -593,7 +609,6 @@ def check(ck):
     vc = [n for f in lookup_fns for n in _version_compares(f)]
     ck.ob(R3, ff.key(None, "version-checked"), bool(vc), "the looked-up function's current version is compared with the stored one" if vc else
           "the lookup no longer compares memento_fn.version() with the stored version", ff.where())
-    fcall = fq.one(fq.calls("_find_function"), "_find_function call")
     handlers = []
     n = fcall
     while n is not None:
@@ -652,10 +667,14 @@ def check(ck):
                 return NOTNONE
             return MAYBE
 
-        for k in call.keywords:
-            if k.arg is not None:
-                binding[k.arg] = nullability(fq.expand(k.value, at_call))
         ue = ck.repo.func("external.UnboundExternalMementoFunction.__init__")
+        ue_params = [a.arg for a in ue.node.args.args if a.arg != "self"]
+        if any(isinstance(a_, ast.Starred) for a_ in call.args) or any(k.arg is None for k in call.keywords):
+            raise AnalysisError("from_qualified_name builds the external stub with */** arguments: bindings cannot be told")
+        for i_, a_ in enumerate(call.args[:len(ue_params)]):
+            binding[ue_params[i_]] = nullability(fq.expand(a_, at_call))
+        for k in call.keywords:
+            binding[k.arg] = nullability(fq.expand(k.value, at_call))
         env = {}
         defaults = ue.node.args.defaults
         params = [a.arg for a in ue.node.args.args]
@@ -756,7 +775,8 @@ def check(ck):
           "decode_arg refuses function references under another condition than `memento_fn is None`", da.where())
     # (c) metadata source treats unresolvable functions as absent; memory backend likewise
     gm = FA(ck, "storage_base.DataSourceMetadataSource.get_mementos")
-    rm = gm.one(gm.calls("_read_memento"), "_read_memento call")
+    # (the read of the stored memento: the private reader, or the decoder itself where the reader was inlined)
+    rm = gm.one(gm.calls("_read_memento") or gm.calls("decode_memento"), "_read_memento call")
     hs = []
     n = rm
     while n is not None:
